@@ -26,14 +26,14 @@ TIMEOUTS = {"quick": (600, 60), "thorough": (3000, 120)}
 
 
 def BOUNDS(tier):
-    n = 4 if tier == "quick" else 5
+    n = 5 if tier == "quick" else 6
     return {"max_nodes": n, "segments": "concrete, selected symbolically", "styles": "28 table styles + list + custom 4/6-tuples", "title": ["default", False, "symbolic text"], "start": "tree and every node", "add_self": [True, False]}
 
 
 def shards(tier):
     from vlib.mutprops import topo_orders
 
-    n = 4 if tier == "quick" else 5
+    n = 5 if tier == "quick" else 6
     out = [{"name": "format-%s" % shape_str(sh), "kind": "all", "shape": list(sh)} for sh in shapes_upto(n, 1)]
     # clones: labels are symbolic selectors into two names (rendering must not depend on the data)
     for sh in shapes_upto(n, 2):
